@@ -37,6 +37,12 @@ AVOID_BY_KEY = {
 }
 
 
+def current_avoid():
+    """generator steering for the C01 findings that are listed as open right now"""
+    from .core import load_findings
+    return {AVOID_BY_KEY[f["key"]] for f in load_findings("C01") if f.get("status") == "open" and f["key"] in AVOID_BY_KEY}
+
+
 def count_lits(e):
     k = type(e).__name__
     if k == "Lit":
